@@ -241,6 +241,42 @@ def analyse(aut, kind, mem_vars, iterates=None):
     return fails, len(reach)
 
 
+class _W:
+    def __init__(self):
+        self.failed, self.checked = list(), list()
+
+    def fail(self, name, witness):
+        self.failed.append(dict(name=name, witness=witness))
+
+
+def _check_iterates(aut, kind, its):
+    from ovc import explicit
+    from contracts import iterates
+
+    def bits(names):
+        out = list()
+        for v in names:
+            d = aut.vars[v]
+            out += [v] if d['type'] == 'bool' else list(d['bitnames'])
+        return out
+    xb, yb = bits(aut.varlist['env']), bits(aut.varlist['sys'])
+    # the memory variables are declared after solving: exclude them
+    yb = [b for b in yb if not b.startswith('_goal') and not b.startswith('_hold')]
+    base = xb + yb + [b + "'" for b in xb] + [b + "'" for b in yb]
+    gm_ = explicit.Game(len(xb), len(yb), 0, _tt(aut, aut.action['env'], base),
+                        _tt(aut, aut.action['sys'], base), aut.moore, aut.plus_one)
+    st = xb + yb
+    w = _W()
+    hs = [_tt(aut, h, st) for h in aut.win['<>[]']]
+    gl = [_tt(aut, g, st) for g in aut.win['[]<>']]
+    tt = lambda u: _tt(aut, u, st)
+    if kind == 'streett':
+        iterates.streett(w, gm_, hs, gl, its[0], its[1], its[2], tt)
+    else:
+        iterates.rabin(w, gm_, hs, gl, its[0], its[1], its[2], tt)
+    return w.failed
+
+
 def monitor(kind, seed, n_games, backend='cudd'):
     def run():
         rnd = random.Random(seed)
@@ -282,6 +318,11 @@ def monitor(kind, seed, n_games, backend='cudd'):
                                   error=repr(e)[:200], game=desc))
                 continue
             built += 1
+            # the iterate facts the transducer relies on, evaluated explicitly
+            ff = _check_iterates(aut, kind, (z, yij, xijk) if kind == 'streett' else (zk, yki, xkijr))
+            for x in ff[:2]:
+                x['game'] = desc
+                fails.append(x)
             its = None
             if kind == 'rabin':
                 sb = list()
